@@ -28,9 +28,9 @@ const (
 
 // Program is a loaded SSA program.
 type Program struct {
-	Prog  *ssa.Program
-	Pkgs  []*ssa.Package
-	Sizes types.Sizes
+	Prog   *ssa.Program
+	Pkgs   []*ssa.Package
+	Sizes  types.Sizes
 	byPath map[string]*ssa.Package
 }
 
@@ -83,44 +83,44 @@ func (p *Program) Package(path string) *ssa.Package { return p.byPath[path] }
 
 // ExploreConfig describes one exploration.
 type ExploreConfig struct {
-	HarnessPkg string
-	HarnessFn  string
-	OnceInit   []string // packages initialised once per worker (immutable tables)
-	PathInit   []string // packages re-initialised on every path
-	Workers    int
-	MaxPaths   int
-	Deadline   time.Duration
-	Opts       Options
-	Solver     smt.Options
-	Env        map[string]string
-	Replay     map[string]uint64
-	Seed       int64
-	MapOrder   string // "", "reverse"
+	HarnessPkg     string
+	HarnessFn      string
+	OnceInit       []string // packages initialised once per worker (immutable tables)
+	PathInit       []string // packages re-initialised on every path
+	Workers        int
+	MaxPaths       int
+	Deadline       time.Duration
+	Opts           Options
+	Solver         smt.Options
+	Env            map[string]string
+	Replay         map[string]uint64
+	Seed           int64
+	MapOrder       string // "", "reverse"
 	SaveQueriesDir string
-	Verbose    bool
-	Params     map[string]int
-	ZeroStubs  []string
+	Verbose        bool
+	Params         map[string]int
+	ZeroStubs      []string
 }
 
 // Result aggregates an exploration.
 type Result struct {
-	Paths        int
-	ByStatus     map[string]int
-	Violations   []Violation
-	Problems     []string // messages of non-ok, non-pruned, non-violation paths
-	Reached      map[string]int
-	AssertHit    map[string]int
-	Asserts      int
-	SymPaths     int // complete paths with >= 1 genuine symbolic decision
-	Samples      []string
-	Funcs        map[string]int
-	Intrinsics   map[string]int
-	Solver       smt.Stats
-	OpaqueFmt    int
-	Steps        int64
-	Exhausted    bool // work-list ran empty
-	WallSec      float64
-	MaxDecisions int
+	Paths           int
+	ByStatus        map[string]int
+	Violations      []Violation
+	Problems        []string // messages of non-ok, non-pruned, non-violation paths
+	Reached         map[string]int
+	AssertHit       map[string]int
+	Asserts         int
+	SymPaths        int // complete paths with >= 1 genuine symbolic decision
+	Samples         []string
+	Funcs           map[string]int
+	Intrinsics      map[string]int
+	Solver          smt.Stats
+	OpaqueFmt       int
+	Steps           int64
+	Exhausted       bool // work-list ran empty
+	WallSec         float64
+	MaxDecisions    int
 	UnknownBranches int
 }
 
